@@ -311,7 +311,7 @@ func runC05(c *Ctx) {
 	c.rule("R-HEAP-BIDIR", 1, "a slot overwritten at an arbitrary offset is followed by sift-down and (unless sift-down moved it, or the slot was cut off) by sift-up on all paths")
 	c.rule("R-HEAPIFY-COVER", 2, "each bulk heapify loop starts at or above the last internal node, steps -1 down to 0 inclusive, and sifts down the loop variable")
 	c.rule("R-YIELD", 1, "Queue.Each stops calling f once it returned false")
-	c.rule("R-CMP-SIGN", 3, "every test of a comparison function's result against a constant is a test of its sign only")
+	c.rule("R-CMP-SIGN", 1, "every test of a comparison function's result against a constant is a test of its sign only")
 	c.rule("R-REORDER-INSTALLS", 1, "Reorder stores its argument as the current comparison on every path")
 	c.rule("R-SORT-INPLACE", 1, "no function reachable from Sort replaces the queue's buffer by anything but a re-slice of itself")
 	c.rule("R-SET-REPLACES", 2, "Set resizes the buffer to len(vs) and copies vs in on every path (contents are what was put in)")
@@ -1147,6 +1147,11 @@ func rulePosWriters(c *Ctx) {
 	_ = lru
 	qAdd, qRemove, qPop, qUpdate := P.Func("heapq", "Queue", "Add"), P.Func("heapq", "Queue", "Remove"), P.Func("heapq", "Queue", "Pop"), P.Func("heapq", "Queue", "Update")
 	nUpd, nDel := 0, 0
+	// construction: LRU itself and the constructor helpers it calls (newLRUStore), with their closures
+	ctor := map[*ssa.Function]bool{}
+	for _, f := range buildCallScope(lruFn).fns {
+		ctor[origin(f)] = true
+	}
 	for _, fn := range P.PkgFuncs("cache") {
 		if P.isCanaryFn(fn) {
 			continue
@@ -1162,7 +1167,7 @@ func rulePosWriters(c *Ctx) {
 				key := name + ":present[k]=v"
 				c.sawFn(name)
 				// (a) inside the closure passed to Update: key = param.key, value = param pos
-				if fn.Parent() != nil && origin(fn.Parent()) == lruFn && len(fn.Params) == 2 {
+				if fn.Parent() != nil && ctor[origin(fn.Parent())] && len(fn.Params) == 2 {
 					kOK := false
 					if fld, ok := x.Key.(*ssa.Field); ok && fld.X == fn.Params[0] {
 						kOK = true
@@ -1214,7 +1219,7 @@ func rulePosWriters(c *Ctx) {
 					_, f := fieldVarOf(fa)
 					if sameField(f, presentF) || sameField(f, accessF) {
 						_, isAlloc := fa.X.(*ssa.Alloc)
-						c.judge(isAlloc && origin(fn) == lruFn, "R-POS-WRITERS", name+":store "+f.Name(), x.Pos(), "initialised once on the fresh store in LRU", "field replaced outside construction")
+						c.judge(isAlloc && ctor[origin(fn)] && fn.Parent() == nil, "R-POS-WRITERS", name+":store "+f.Name(), x.Pos(), "initialised once on the fresh store in LRU", "field replaced outside construction")
 					}
 				}
 			}
@@ -1223,13 +1228,18 @@ func rulePosWriters(c *Ctx) {
 	// Update(non-nil closure) called in LRU on the access queue
 	{
 		okU := false
-		allInstrs(lruFn, func(in ssa.Instruction) {
-			if call, ok := in.(*ssa.Call); ok && staticCallee(&call.Call) == qUpdate && isLoadOfField(call.Call.Args[0], accessF) {
-				if _, ok := call.Call.Args[1].(*ssa.MakeClosure); ok {
-					okU = true
-				}
+		for cf := range ctor {
+			if cf.Parent() != nil {
+				continue
 			}
-		})
+			allInstrs(cf, func(in ssa.Instruction) {
+				if call, ok := in.(*ssa.Call); ok && staticCallee(&call.Call) == qUpdate && isLoadOfField(call.Call.Args[0], accessF) {
+					if _, ok := call.Call.Args[1].(*ssa.MakeClosure); ok {
+						okU = true
+					}
+				}
+			})
+		}
 		c.judge(okU, "R-POS-WRITERS", "cache.LRU:install-callback", lruFn.Pos(), "Update(closure) installed on the access queue before the store is returned", "no position callback is installed on the access queue")
 	}
 	if nUpd < 2 || nDel < 2 {
